@@ -3,7 +3,8 @@
 (* paths, and the probes of the flag table.                                                                      *)
 EXTENDS Convert, Flags
 CONSTANTS MaxFields,   \* fields per map / elements per array in the nested space
-          Big,         \* TRUE: four keys and three scalars; FALSE: three keys and two scalars
+          NumKeys,     \* 3: keys a, 1, 2;  4: keys a, b, 1, 2
+          NumScalars,  \* 2: scalars "" and x;  3: also 7
           MaxLen       \* records per flat stream
 
 K(c) == <<c>>
@@ -13,8 +14,8 @@ Semi == <<";">>
 Seps == {Dot, Colon, Semi}
 
 (* ---- nested records ------------------------------------------------------------------------------------ *)
-NKeys == IF Big THEN {K("a"), K("b"), K("1"), K("2")} ELSE {K("a"), K("1"), K("2")}
-Scalars == IF Big THEN {S(""), S("x"), S("7")} ELSE {S(""), S("x")}
+NKeys == IF NumKeys = 4 THEN {K("a"), K("b"), K("1"), K("2")} ELSE {K("a"), K("1"), K("2")}
+Scalars == IF NumScalars = 3 THEN {S(""), S("x"), S("7")} ELSE {S(""), S("x")}
 Bodies(ks, vs, n) == {b \in UNION {[1..m -> ks \X vs] : m \in 0..n} : DistinctKeys(b)}
 MapsOver(ks, vs, n) == {M(b) : b \in Bodies(ks, vs, n)}
 ArraysOver(vs, n) == {A(e) : e \in UNION {[1..m -> vs] : m \in 0..n}}
